@@ -88,6 +88,7 @@ def conv(t, bits, signed):
     if t.w == bits:
         return TV(t.bv, signed)
     if t.w > bits:
+        # truncation commutes with + - *: the rewriter pushes it to the leaves (u64(a - b) becomes the 64-bit a - b)
         return TV(z3.Extract(bits - 1, 0, t.bv), signed)
     return TV(ext(t, bits), signed)
 
@@ -293,7 +294,8 @@ class LoopSpec:
 class FnContract:
     def __init__(self, name, regions=None, nullable=(), logical=None, requires=None, ensures=None, modifies=(), loops=None,
                  inline=False, configs=None, alloc_result=None, escapes=(), defs=None, shape=None, frees=(), ghost_updates=None,
-                 abstract=False, pure=False, result_name=None, note=None, allocates=False, replay=True, lemmas=None, params=None, ret=None):
+                 abstract=False, pure=False, result_name=None, note=None, allocates=False, replay=True, lemmas=None, params=None, ret=None,
+                 cost=None):
         self.name = name
         self.regions = dict(regions or {})      # pointer parameter -> 'u8[expr]' | 'u32[16]' | 'struct' | 'cell' | shape object
         self.nullable = set(nullable)
@@ -315,6 +317,7 @@ class FnContract:
         if params is not None:
             self.params = list(params)     # abstract callee: parameter names
         self.ret = ret
+        self.cost = cost      # seconds per configuration (planning hint for the unit splitter)
         self.lemmas = dict(lemmas or {})    # ghost assertions at every return: proved (locals visible), then assumed for `ensures`
 
 
@@ -640,6 +643,21 @@ class Translator:
             raise ClauseError('quantifier must range over range(a, b)')
         lo = tv_const(0) if len(it.args) == 1 else self.as_tv(self.ev(it.args[0]))
         hi = self.as_tv(self.ev(it.args[-1]))
+        # literal small ranges are expanded: the body is translated once per value (no quantifier, literal indices)
+        lo_s, hi_s = shrink(lo), shrink(hi)
+        if z3.is_bv_value(lo_s.bv) and z3.is_bv_value(hi_s.bv) and not lo_s.signed and not hi_s.signed:
+            a, b = lo_s.bv.as_long(), hi_s.bv.as_long()
+            if b - a <= 256:
+                inst = []
+                for j in range(a, b):
+                    self.bound.append({g.target.id: TV(z3.BitVecVal(j, 64), False)})
+                    try:
+                        inst.append(self.as_bool(self.ev(gen.elt)))
+                    finally:
+                        self.bound.pop()
+                if forall:
+                    return z3.And(*inst) if inst else z3.BoolVal(True)
+                return z3.Or(*inst) if inst else z3.BoolVal(False)
         self.nq += 1
         name = '%s!q%d' % (g.target.id, self.ctx.fresh_id())
         k = z3.BitVec(name, 64)
@@ -654,15 +672,6 @@ class Translator:
             self.qdepth -= 1
             self.qvars.pop()
         rng = z3.And(tv_cmp('<=', lo, kt), tv_cmp('<', kt, hi))
-        # literal small ranges are expanded (no quantifier for the solver to instantiate)
-        lo_s, hi_s = shrink(lo), shrink(hi)
-        if z3.is_bv_value(lo_s.bv) and z3.is_bv_value(hi_s.bv) and not lo_s.signed and not hi_s.signed:
-            a, b = lo_s.bv.as_long(), hi_s.bv.as_long()
-            if b - a <= 256:
-                inst = [z3.substitute(body, (k, z3.BitVecVal(j, 64))) for j in range(a, b)]
-                if forall:
-                    return z3.And(*inst) if inst else z3.BoolVal(True)
-                return z3.Or(*inst) if inst else z3.BoolVal(False)
         if forall:
             b2 = reindex(k, z3.Implies(rng, body))
             return z3.ForAll([k], b2, patterns=bare_reads(k, b2))
@@ -768,6 +777,12 @@ class Translator:
     def expr_nested(self, text):
         tree = ast.parse(_desugar(_c_idents(text.strip())).strip(), mode="eval")
         return self.ev(tree.body)
+
+    def _lit_tv(self, v):
+        v = shrink(self.as_tv(v))
+        if not z3.is_bv_value(v.bv):
+            raise ClauseError('literal expected')
+        return v.bv.as_long()
 
     def _lit(self, node):
         v = shrink(self.as_tv(self.ev(node)))
